@@ -70,6 +70,8 @@ def contexts(X, fX, H=None, HL=None):
     return {
         "T": (X, lambda v: fX(v), lambda d: [d]),
         "List": (List[X], lambda v: [fX(x) for x in v], lambda d: [[d], [d, d], []]),
+        # (the PEP 604 spelling first: typing makes it equal to Optional[X], the method caches then serve both)
+        "Pep604": (X | None, lambda v: None if v is None else fX(v), lambda d: [d, None]),
         "Optional": (Optional[X], lambda v: None if v is None else fX(v), lambda d: [d, None]),
         "Dict": (Dict[str, X], lambda v: {k: fX(x) for k, x in v.items()}, lambda d: [{"k": d}, {}]),
         "Tuple": (Tuple[X, bool], lambda v: (fX(v[0]), v[1]), lambda d: [[d, True], [d]]),
@@ -308,7 +310,7 @@ def map_leaves(cname: str, v, fX):
         return fX(v)
     if cname == "List":
         return [fX(x) for x in v]
-    if cname == "Optional":
+    if cname in ("Optional", "Pep604"):
         return None if v is None else fX(v)
     if cname == "Dict":
         return {k: fX(x) for k, x in v.items()}
